@@ -2,13 +2,14 @@ SPEC = dict(
     claimed=True,
     title='The fan receives the nearest value it supports',
     props_file='Props/C12.v', props_mod='Props.C12',
-    props_extra=[('Props/C12Mono.v', 'Props.C12Mono')],
-    proof_files=['Proofs/Closest.v', 'Proofs/ClosestMono.v', 'Proofs/LeafTie.v', 'Drv/Closest.v'],
+    props_extra=[('Props/C12Mono.v', 'Props.C12Mono'), ('Props/C12Default.v', 'Props.C12Default')],
+    proof_files=['Proofs/Closest.v', 'Proofs/ClosestMono.v', 'Proofs/DefaultMap.v', 'Proofs/LeafTie.v', 'Drv/Closest.v'],
     tie_vo=['Proofs/LeafTie.vo'],
     drivers=[dict(name='closest', drv_mod='Drv.Closest', drv_file='Drv/Closest.v', shard=300)],
     rule='exhaustive: every map over every subset of a small key universe with outputs from a small alphabet '
          '(quick: 6 keys x 3 outputs; thorough: 12 keys, sampled patterns), plus seeded random full-size maps '
-         '(identity, quantiser, non-monotonic, constant, single entry, sparse user map); requests = every supported key, '
+         '(identity, quantiser, non-monotonic, constant, single entry, sparse user map), plus the default map the real controller computes for a fan '
+         'without PWM read-back (route=default: cmd fan, no override, empty database; recorded as the identity on 0..255); requests = every supported key, '
          'its neighbours, midpoints +-1, -50, 305 and random ones. Non-trivial = at least two supported inputs; '
          'distinct = distinct (map, requests, observation) terms.',
     assumptions=['PWM-map outputs are never -1 (the sentinel of ExtractKeysWithDistinctValues); outputs are PWM values',
@@ -17,7 +18,9 @@ SPEC = dict(
     level_text='Theorems C12_nearest/C12_exact/C12_supported/C12_written hold for every strictly sorted key list of any length and every '
                'integer request (induction on the binary-search interval, axiom-free); C12_selection_monotone / C12_supported_fixed_point / '
                'C12_written_monotone / C12_outputs_reachable (Props/C12Mono.v) add that the selection never inverts the order of two requests, that a supported '
-               'request is handed through unchanged, that with non-decreasing outputs the written value is monotone in the request, and that every output value of the map stays reachable through a supported input; the model is tied to the Go code by a '
+               'request is handed through unchanged, that with non-decreasing outputs the written value is monotone in the request, and that every output value of the map stays reachable through a supported input; C12_default_map_is_identity / C12_default_map_clamps '
+               '(Props/C12Default.v) derive the default map InterpolateLinearlyInt({0:0,255:255},0,255) from the interpolation model (float64 ratio, '
+               'float32 rounding, truncation: the identity, which fails at 31 keys without the float32 rounding) and show every request through it is written clamped to 0..255; the model is tied to the Go code by a '
                'reflexivity lemma on the regenerated getClosest and by a differential run of the real FindClosest / '
                'ExtractKeysWithDistinctValues / setPwm on exhaustive small and random full-size maps.',
     level_note='trusted: Coq kernel; hand-written model of FindClosest/ExtractKeysWithDistinctValues/setPwm, agreement with the code observed on the generated cases; outputs != -1',
